@@ -376,6 +376,11 @@ def YEARFRAC(
     # Get Python internal types.
     start_date, end_date = start_date.value, end_date.value
 
+    if start_date == end_date:
+        # No time passed (some day-count conventions of the yearfrac package
+        # raise for equal dates at the end of February).
+        return 0.0
+
     if basis == 0:  # US 30/360
         return yearfrac.yearfrac(start_date, end_date, '30e360_matu')
     elif basis == 1:  # Actual/actual
